@@ -162,8 +162,18 @@ func (b *exampleBuilder) buildExampleForMixedValueNode(node *ischema.MixedValueN
 	}
 
 	if cnt := b.processedTypes[typeName]; cnt > 1 {
-		// Do not process already processed type more than twice.
-		return nil, nil
+		// Do not process already processed type more than twice: take the
+		// first alternative that is not being built for the third time.
+		found := false
+		for _, alt := range tt[1:] {
+			if bytes.NewBytes(alt).IsUserTypeName() && b.processedTypes[alt] <= 1 {
+				typeName, found = alt, true
+				break
+			}
+		}
+		if !found {
+			return nil, nil
+		}
 	}
 
 	b.processedTypes[typeName]++
